@@ -15,7 +15,9 @@ import (
 
 	sdk "github.com/alephium/go-sdk"
 	"github.com/alephium/wormhole-fork/node/pkg/alephium"
+	"github.com/alephium/wormhole-fork/node/pkg/common"
 	"github.com/alephium/wormhole-fork/node/pkg/vaa"
+	"github.com/alephium/wormhole-fork/node/verifh/alphh"
 	"github.com/alephium/wormhole-fork/node/verifh/ev"
 	"github.com/alephium/wormhole-fork/node/verifh/mc"
 )
@@ -238,6 +240,89 @@ func attestPayload(tokenId [32]byte, chain uint16, decimals uint8, symbol, name 
 	return append(b, name[:]...)
 }
 
+// pipeline: the decoders are also reached through the watcher's two paths (event polling, re-observation
+// by transaction id). Transactions that carry SEVERAL events (two or three bridge messages with distinct
+// values; a bridge message next to a message-shaped event of another contract, in both orders) are run in
+// full against the real watcher on the simulated node; on each path every publication must carry exactly
+// the values of one core-contract event, and every well-formed core event's values must appear exactly once.
+func pipeline() {
+	mk := func(seq, target, nonce string, fill byte, cl string, contract string) alphh.Msg {
+		return alphh.Msg{Tag: "msg-seq" + seq, Sender: alphh.BridgeID, Contract: contract, Target: target, Seq: seq, Nonce: nonce, Payload: alphh.TransferPayload(fill), CL: cl, Tx: alphh.TxID(1)}
+	}
+	a, b, c := mk("5", "2", "00000001", 7, "1", alphh.GovID), mk("6", "4", "00000002", 9, "2", alphh.GovID), mk("7", "65535", "ffffffff", 11, "0", alphh.GovID)
+	f := mk("99", "3", "00000063", 13, "1", alphh.OtherID) // message-shaped event of another contract, names the bridge as sender
+	scen := map[string][]alphh.Msg{
+		"two bridge messages in one transaction":        {a, b},
+		"two bridge messages, reversed":                 {b, a},
+		"three bridge messages in one transaction":      {a, b, c},
+		"bridge message then another contract's event":  {a, f},
+		"another contract's event then bridge message":  {f, a},
+		"bridge, foreign, bridge":                       {a, f, b},
+	}
+	tuple := func(mp *common.MessagePublication) string {
+		return fmt.Sprintf("seq=%d target=%d nonce=%08x cl=%d payload=%x.. (%dB) emitter=%x", mp.Sequence, mp.TargetChain, mp.Nonce, mp.ConsistencyLevel, mp.Payload[:imin(len(mp.Payload), 3)], len(mp.Payload), mp.EmitterAddress[:4])
+	}
+	want := func(m alphh.Msg) string {
+		var seq, tgt, cl uint64
+		fmt.Sscan(m.Seq, &seq)
+		fmt.Sscan(m.Target, &tgt)
+		fmt.Sscan(m.CL, &cl)
+		var nonce uint32
+		fmt.Sscanf(m.Nonce, "%08x", &nonce)
+		pl, _ := hex.DecodeString(m.Payload)
+		em, _ := hex.DecodeString(m.Sender)
+		return fmt.Sprintf("seq=%d target=%d nonce=%08x cl=%d payload=%x.. (%dB) emitter=%x", seq, tgt, nonce, cl, pl[:imin(len(pl), 3)], len(pl), em[:4])
+	}
+	n := 0
+	for name, msgs := range scen {
+		for _, reobsFirst := range []bool{false, true} {
+			n++
+			w := alphh.NewWorld(false, 10, 100)
+			var steps []alphh.Step
+			for i := range msgs {
+				steps = append(steps, alphh.Step{Op: "emit", Msg: &msgs[i], Block: 1, Height: 11})
+			}
+			tail := []alphh.Step{{Op: "evtick"}, {Op: "height+", Height: 3}, {Op: "clock", Sec: 60}, {Op: "htick"}, {Op: "reobs", Tx: alphh.TxID(1)}, {Op: "htick"}}
+			if reobsFirst {
+				tail = []alphh.Step{{Op: "height+", Height: 3}, {Op: "clock", Sec: 60}, {Op: "reobs", Tx: alphh.TxID(1)}, {Op: "evtick"}, {Op: "htick"}, {Op: "htick"}}
+			}
+			steps = append(steps, tail...)
+			got := map[string]map[string]int{"polling": {}, "reobs": {}}
+			var pretty []string
+			for _, s := range steps {
+				pretty = append(pretty, s.String())
+				for _, fw := range w.Apply(s) {
+					got[fw.Path][tuple(fw.MP)]++
+				}
+			}
+			w.Close()
+			rec := map[string]interface{}{"scenario": name, "reobservation_first": reobsFirst, "steps": pretty}
+			for path, g := range got {
+				exp := map[string]int{}
+				for _, m := range msgs {
+					if m.Contract == alphh.GovID {
+						exp[want(m)]++
+					}
+				}
+				for t, k := range g {
+					if exp[t] == 0 {
+						r.Violation("pipeline ("+path+" path): a publication carries values that are not those of any core-contract event of the transaction", name+": "+t, rec)
+					} else if k > exp[t] {
+						r.Violation("pipeline ("+path+" path): one event's values were published more than once", name+": "+t, rec)
+					}
+				}
+				for t := range exp {
+					if g[t] == 0 {
+						r.Violation("pipeline ("+path+" path): a well-formed event of the transaction was not published with its own values", name+": "+t, rec)
+					}
+				}
+			}
+		}
+	}
+	r.Set("pipeline_scenarios", n)
+	r.Add("traces_validated_against_impl", n)
+}
+
 func main() {
 	r = ev.Start("C11", "exploration")
 	nums := numAlphabet()
@@ -395,6 +480,7 @@ func main() {
 	r.Sample(cases[len(cases)-3])
 	r.Set("rule", "events: default well-formed event with every single field and every PAIR of fields replaced by each value of that field's boundary alphabet (26 numerals incl. 0,1,254..256,65534..65536,2^32,2^64-1,2^64,2^64+2,2^80,2^128+255,2^256-1 and non-numeric / prefixed / underscored / leading-zero strings; wrong Val variants and mismatched type tags; sender/nonce/payload length and hex shapes), single-field cases x 4 block timestamps, field counts 0..8, deduplicated; every case except the default is non-trivial; plus 69 conversion identities and the attestation encodings")
 	r.Assume("a node reports U256 values as plain decimal numerals; explicitly signed spellings (+7, -5) are not judged")
+	pipeline()
 	r.Finish()
 }
 
